@@ -53,13 +53,11 @@ theorem gate_threads_text (v : Nat → Text → Verdict) (rails : List Nat) (t :
 
 /-! ### Colang 1.0 -/
 
-/-- `input_order`: the input-rail invocations of a turn are exactly `gate` of the configured list. -/
-theorem input_order_v1 (cfg : Cfg) (h : HistV1) (t : Turn) (hi : WF cfg .input) (ho : WF cfg .output) (hs : h.skip = false) :
-    railCalls .input (turnV1 cfg h t).1 = gate t.vin cfg.inRails t.user := by
-  rw [turnV1_eq_spec cfg h t hi ho hs, turnSpecV1_trace]
-  cases hg : gateStop t.vin cfg.inRails t.user with
-  | none => simp [railCalls_input_inputTraceV1, railCalls_input_afterInputV1]
-  | some w => simp [railCalls_input_inputTraceV1]
+/-- `input_order`: the input-rail invocations of a turn are exactly `gate` of the configured list —
+    whatever state the turn starts from and however the output rails are written. -/
+theorem input_order_v1 (cfg : Cfg) (h : HistV1) (t : Turn) (hi : WF cfg .input) :
+    railCalls .input (turnV1 cfg h t).1 = gate t.vin cfg.inRails t.user :=
+  turnV1_input_calls cfg h t hi
 
 /-- `input_before_generation`: the trace splits into a part without any dialog / generation step
     followed by a part without any input-rail call. -/
@@ -83,7 +81,7 @@ theorem reject_stops_v1 (cfg : Cfg) (h : HistV1) (t : Turn) (hi : WF cfg .input)
         (if cfg.exc then { texts := [], exc := some .input, raised := false }
          else if t.retrFault then { texts := [internalError], exc := none, raised := false }
          else { texts := [refusal], exc := none, raised := false }) := by
-  have hio := input_order_v1 cfg h t hi ho hs
+  have hio := input_order_v1 cfg h t hi
   rw [hio] at hc ⊢
   have hb : (t.vin c.1 c.2).continues = false := by rw [hr]; rfl
   have hlast := Pipeline.gate_block_is_last t.vin cfg.inRails t.user c hc hb
@@ -126,7 +124,7 @@ theorem rewrite_propagates_v1 (cfg : Cfg) (h : HistV1) (t : Turn) (hi : WF cfg .
     · cases hg : gateStop t.vin cfg.inRails t.user with
       | none => rw [hg] at h1; exact llm_afterInputV1 cfg t _ task u h1
       | some w => rw [hg] at h1; simp at h1
-  · rw [input_order_v1 cfg h t hi ho hs]
+  · rw [input_order_v1 cfg h t hi]
     exact Pipeline.gate_chained _ _ _
   · rw [turnV1_eq_spec cfg h t hi ho hs]
     unfold turnSpecV1
@@ -152,7 +150,7 @@ theorem rewrite_propagates_v1 (cfg : Cfg) (h : HistV1) (t : Turn) (hi : WF cfg .
 
 /-- `every_turn`: in a conversation of any length started from a state with `$skip_output_rails`
     unset, every turn is gated as above and leaves the flag unset for the next one. -/
-theorem every_turn_v1 (cfg : Cfg) (hi : WF cfg .input) (ho : WF cfg .output) :
+theorem every_turn_v1 (cfg : Cfg) (hi : WF cfg .input) :
     ∀ (ts : List Turn) (h : HistV1), h.skip = false →
       ∀ p ∈ List.zip ts (convV1 cfg h ts),
         railCalls .input p.2.1 = gate p.1.vin cfg.inRails p.1.user ∧ p.2.2.2.skip = false
@@ -161,8 +159,8 @@ theorem every_turn_v1 (cfg : Cfg) (hi : WF cfg .input) (ho : WF cfg .output) :
     intro p hp
     simp only [convV1, List.zip_cons_cons, List.mem_cons] at hp
     rcases hp with rfl | hp
-    · exact ⟨input_order_v1 cfg h t hi ho hs, turnV1_skip cfg h t hs⟩
-    · exact every_turn_v1 cfg hi ho ts _ (turnV1_skip cfg h t hs) p hp
+    · exact ⟨input_order_v1 cfg h t hi, turnV1_skip cfg h t hs⟩
+    · exact every_turn_v1 cfg hi ts _ (turnV1_skip cfg h t hs) p hp
 
 /-- Non-vacuity: the hypotheses hold for a concrete configuration with three permuted rails, one
     rewriting and one rejecting, in exception mode. -/
